@@ -169,6 +169,8 @@ def gen_matrix(spec: dict) -> torch.Tensor:
             vals.append([-1.0, 0.0, 1.0][code % 3])
             code //= 3
         M = torch.tensor(vals, dtype=dt).reshape(m, n)
+    elif kind == "ints":  # small integers: with a power-of-two `scale`, J J^T is EXACT in any summation order
+        M = torch.randint(-3, 4, (m, n), generator=g).to(dt)
     elif kind == "wellcond":  # full row rank, bounded condition number (m <= n)
         Q1, _ = torch.linalg.qr(torch.randn(m, m, generator=g, dtype=dt))
         Q2, _ = torch.linalg.qr(torch.randn(n, n, generator=g, dtype=dt))
